@@ -8,6 +8,9 @@ Driver for C10.  ops (`<T>` = rayon pool size, `<mode>` = `i` for `i64` weights,
 * `rcb2 <T> <mode> <w> <h> <iter> <plen> <n> <w_0> … <w_{n-1}>`  → `ids <id…>`
 * `rcb3 <T> <mode> <w> <h> <d> <iter> <plen> <n> <w_0> …`        → `ids <id…>`
 * `med <T> <mode> <total> <n> <w_0> …`                           → `med <position> <left_weight>`
+* `reuse2 <T> <mode> <w> <h> <iterA> <iterB> <n> <a_0> … <a_{n-1}> <b_0> … <b_{n-1}>` (and `reuse3`)
+  → `ids <id…>` of `rcb(B, iterB)`: the implementation writes it into the buffer a previous call
+  `rcb(A, iterA)` has filled; the model has no history, it answers for `B` alone
 * `pos2 <w> <h> <i>` → `pos x y`, `idx2 <w> <h> <x> <y>` → `idx i`, `pos3 <w> <h> <d> <i>`,
   `idx3 <w> <h> <d> <x> <y> <z>`, `len2 <w> <h>`, `len3 <w> <h> <d>` → `len n`
 -/
@@ -88,6 +91,43 @@ def handle (toks : List String) : String :=
     | none => "bad-op"
     | some (t, mode, w, h, d, iter, plen, ws) =>
       showIds (rcb3 {} t (checkedBracket mode) w h d ws.toArray plen iter)
+  | "reuse2" :: rest =>
+    match (do
+      let (hd, rest) ← takeParsed parseNat? 1 rest
+      match rest with
+      | mode :: rest =>
+        let mode ← parseMode? mode
+        let (a, rest) ← takeParsed parseNat? 5 rest
+        match hd, a with
+        | [t], [w, h, _iterA, iterB, n] =>
+          let (_, rest) ← takeParsed parseInt? n rest
+          let (ws, rest) ← takeParsed parseInt? n rest
+          if rest.isEmpty && w ≥ 1 && h ≥ 1 && t ≥ 1 && t ≤ 64 && w * h = n then some (t, mode, w, h, iterB, ws)
+          else none
+        | _, _ => none
+      | [] => none) with
+    | none => "bad-op"
+    | some (t, mode, w, h, iter, ws) =>
+      showIds (rcb2 {} t (checkedBracket mode) w h ws.toArray ws.length iter)
+  | "reuse3" :: rest =>
+    match (do
+      let (hd, rest) ← takeParsed parseNat? 1 rest
+      match rest with
+      | mode :: rest =>
+        let mode ← parseMode? mode
+        let (a, rest) ← takeParsed parseNat? 6 rest
+        match hd, a with
+        | [t], [w, h, d, _iterA, iterB, n] =>
+          let (_, rest) ← takeParsed parseInt? n rest
+          let (ws, rest) ← takeParsed parseInt? n rest
+          if rest.isEmpty && w ≥ 1 && h ≥ 1 && d ≥ 1 && t ≥ 1 && t ≤ 64 && w * h * d = n then
+            some (t, mode, w, h, d, iterB, ws)
+          else none
+        | _, _ => none
+      | [] => none) with
+    | none => "bad-op"
+    | some (t, mode, w, h, d, iter, ws) =>
+      showIds (rcb3 {} t (checkedBracket mode) w h d ws.toArray ws.length iter)
   | "med" :: t :: mode :: total :: n :: rest =>
     match (do
       let t ← parseNat? t
